@@ -371,7 +371,7 @@ class ExprMixin:
         for nxt_node in node.values[1:]:
             nxt = []
             for s, v in results:
-                if isinstance(v, Raised) or getattr(s, "_bo_done", False):
+                if isinstance(v, (Raised, _Done)):
                     nxt.append((s, v))
                     continue
                 for s2, t in self.branch(s, self.truth(s, v)):
@@ -792,7 +792,12 @@ class ExprMixin:
             for s, av in self.split_tags(st, a):
                 for s2, bv in self.split_tags(s, b):
                     if isinstance(av, (VU, VOpaque)) or isinstance(bv, (VU, VOpaque)):
-                        out.extend(self.opaque_call(s2, f"binop:{type(op).__name__}", [av, bv], may_raise=("TypeError",)))
+                        dec = [x for x in (av, bv) if isinstance(x, (VU, VOpaque)) and self.is_decimal(x)]
+                        if dec and all(self.is_decimal(x) or isinstance(x, (VInt, VBool)) for x in (av, bv)):
+                            mr = ("InvalidOperation",) + (("ZeroDivisionError",) if isinstance(op, (ast.Div, ast.FloorDiv, ast.Mod)) else ())
+                            out.extend(self.mk_decimal(s2, f"Decimal.{type(op).__name__}", [av, bv], may_raise=mr))
+                        else:
+                            out.extend(self.opaque_call(s2, f"binop:{type(op).__name__}", [av, bv], may_raise=("TypeError",)))
                     else:
                         out.extend(self.binop(s2, op, av, bv, node))
             return out
@@ -1007,6 +1012,20 @@ def _literal(expr):
         return {_literal(k): _literal(v) for k, v in zip(expr.keys, expr.values)}
     if isinstance(expr, ast.UnaryOp) and isinstance(expr.op, ast.USub):
         return -_literal(expr.operand)
+    if isinstance(expr, ast.BinOp) and isinstance(expr.op, (ast.LShift, ast.Add, ast.Sub, ast.Mult, ast.Pow)):
+        a, b = _literal(expr.left), _literal(expr.right)
+        if isinstance(a, int) and isinstance(b, int) and not isinstance(a, bool):
+            if isinstance(expr.op, ast.LShift):
+                return a << b
+            if isinstance(expr.op, ast.Add):
+                return a + b
+            if isinstance(expr.op, ast.Sub):
+                return a - b
+            if isinstance(expr.op, ast.Mult):
+                return a * b
+            if isinstance(expr.op, ast.Pow) and 0 <= b < 200:
+                return a ** b
+        raise ValueError("not a literal")
     if isinstance(expr, ast.Call):
         f = ast.unparse(expr.func)
         if f == "sys.intern" and len(expr.args) == 1:
